@@ -7,13 +7,19 @@
   TOKENS.  Properties/C14Lex.lean: calc's own lexer on characters.  Here: the host's LEXER (`Expr.cppLex`,
   translation phase 3 by maximal munch: pp-numbers `0xE+1`, `++`, `--`, `->`, `||`, `//`, `/*`) against calc's.
 
-  prophyc refuses every text matching `UNWRITABLE_TEXT = [\x00-\x08\x0a-\x1f]|--|\+\+|0[xX][0-9a-fA-F]*[eE][-+]`
+  prophyc refuses every text matching
+  `UNWRITABLE_TEXT = [\x00-\x08\x0a-\x1f]|--|\+\+|(?<![A-Za-z0-9_])0[xX][0-9a-fA-F]*[eE][-+]`
   (`Expr.unwritable`; `C14_unwritable_is_regex` says the scan is that regular expression).
 
   Result (`C14_cpp_lexes_like_calc`, true AS STATED in the task): for a text that calc lexes and PARSES, that
   UNWRITABLE_TEXT lets pass and that has no leading-zero literal (D63, `hasLeadingZero`), the C++ token stream,
   read back as calc tokens (`Expr.ofCTok`: decimal and `0x` literals with their values, identifiers,
   `+ - * / | ( ) << >>`; nothing else), IS calc's token list.  No further clause is missing from UNWRITABLE_TEXT.
+
+  Converse (`C14_unwritable_is_exact`): on such a text a match of UNWRITABLE_TEXT means the C++ tokens are NOT
+  calc's; so (`C14_unwritable_exact_iff`) UNWRITABLE_TEXT refuses exactly the accepted texts a C++ compiler would
+  cut differently.  (Before two repairs of the regular expression it refused more: a TAB, and `0x1e+` inside an
+  identifier such as `OFFSET_0xE+1`.)
 
   What the proof uses of "calc parses the tokens" is only `Expr.okSeq`: operands and operators alternate
   (`C14_parse_alternates`).  That excludes `12ab`, `0x1p+3`, `1e+5` (literal directly followed by a name),
@@ -31,14 +37,26 @@ open Prophy Prophy.Expr
 /-! ### UNWRITABLE_TEXT -/
 
 /-- `unwritable` = `re.search(UNWRITABLE_TEXT, text)`: somewhere in the text there is a control character other
-    than TAB, `--`,
-    `++`, or `0`, `x`/`X`, hex digits, `e`/`E`, a sign -/
+    than TAB, `--`, `++`, or - not directly after an identifier character - `0`, `x`/`X`, hex digits, `e`/`E`,
+    a sign -/
 theorem C14_unwritable_is_regex (cs : List Char) :
     unwritable cs = true ↔ ∃ pre c r, cs = pre ++ c :: r ∧
       ((c.toNat < 32 ∧ c ≠ '\t') ∨ (c = '-' ∧ ∃ r', r = '-' :: r') ∨ (c = '+' ∧ ∃ r', r = '+' :: r') ∨
-       (c = '0' ∧ ∃ X hs E S rest, r = X :: (hs ++ E :: S :: rest) ∧ (X = 'x' ∨ X = 'X') ∧
-         (∀ h ∈ hs, isHexC h = true) ∧ (E = 'e' ∨ E = 'E') ∧ (S = '+' ∨ S = '-'))) :=
-  unwritable_iff cs
+       ((∀ p, pre.getLast? = some p → isIdChar p = false) ∧ c = '0' ∧
+         ∃ X hs E S rest, r = X :: (hs ++ E :: S :: rest) ∧ (X = 'x' ∨ X = 'X') ∧
+         (∀ h ∈ hs, isHexC h = true) ∧ (E = 'e' ∨ E = 'E') ∧ (S = '+' ∨ S = '-'))) := by
+  rw [unwritable_iff]
+  constructor
+  · rintro ⟨pre, c, r, e, h | h | h | ⟨hp, h⟩⟩
+    · exact ⟨pre, c, r, e, Or.inl h⟩
+    · exact ⟨pre, c, r, e, Or.inr (Or.inl h)⟩
+    · exact ⟨pre, c, r, e, Or.inr (Or.inr (Or.inl h))⟩
+    · exact ⟨pre, c, r, e, Or.inr (Or.inr (Or.inr ⟨(prevId_false_iff pre).mp hp, h⟩))⟩
+  · rintro ⟨pre, c, r, e, h | h | h | ⟨hp, h⟩⟩
+    · exact ⟨pre, c, r, e, Or.inl h⟩
+    · exact ⟨pre, c, r, e, Or.inr (Or.inl h)⟩
+    · exact ⟨pre, c, r, e, Or.inr (Or.inr (Or.inl h))⟩
+    · exact ⟨pre, c, r, e, Or.inr (Or.inr (Or.inr ⟨(prevId_false_iff pre).mpr hp, h⟩))⟩
 
 /-- the hex clause, as the scan sees it: after `0x` the maximal run of hex digits ends in `e`/`E` and a sign
     follows (a sign is not a hex digit, so backtracking finds nothing else) -/
@@ -66,6 +84,20 @@ theorem C14_cpp_lexes_like_calc (cs : List Char) (ts : List Tok) (n : Nat) (hn :
     (hz : hasLeadingZero cs = false) :
     (cppLex n cs).bind (fun cts => cts.mapM ofCTok) = some ts :=
   cpp_lexes_like_calc cs ts n hn hl hp hw hz
+
+/-- **Converse**: on a text calc lexes and parses (no leading-zero literal), a match of UNWRITABLE_TEXT means the
+    C++ compiler does not read calc's tokens -/
+theorem C14_unwritable_is_exact (cs : List Char) (ts : List Tok) (n : Nat)
+    (hl : lex false n cs = some ts) (hp : (parse ts).isSome) (hz : hasLeadingZero cs = false)
+    (hw : unwritable cs = true) :
+    (cppLex n cs).bind (fun cts => cts.mapM ofCTok) ≠ some ts :=
+  cpp_lex_differs_of_unwritable cs ts n hl hp hz hw
+
+/-- both directions: UNWRITABLE_TEXT refuses exactly the accepted texts that C++ would cut differently -/
+theorem C14_unwritable_exact_iff (cs : List Char) (ts : List Tok) (n : Nat) (hn : cs.length < n)
+    (hl : lex false n cs = some ts) (hp : (parse ts).isSome) (hz : hasLeadingZero cs = false) :
+    (cppLex n cs).bind (fun cts => cts.mapM ofCTok) = some ts ↔ unwritable cs = false :=
+  unwritable_exact cs ts n hn hl hp hz
 
 /-- on texts: the C++ compiler reads the tokens calc read -/
 theorem C14_cpp_reads_text (s : String) (ts : List Tok) (a : Ast) (hl : tokenize false s = some ts)
@@ -130,6 +162,10 @@ example : unwritable "(1)<<(31)".toList = false ∧ cppToks 10 "(1)<<(31)".toLis
 -- TAB: writable since the repair of UNWRITABLE_TEXT, same tokens, value 3
 example : unwritable "1\t+ 2".toList = false ∧ cppToks 7 "1\t+ 2".toList = tokenize false "1\t+ 2" ∧
     tokenize false "1\t+ 2" = some [.num 1, .plus, .num 2] ∧ evalText false envNone "1\t+ 2" = .value 3 := by decide
+-- the look-behind: `0xE+` at the end of a name is no number - writable, same tokens; the literal is refused
+example : unwritable "OFFSET_0xE+1".toList = false ∧ cppToks 13 "OFFSET_0xE+1".toList = tokenize false "OFFSET_0xE+1" ∧
+    tokenize false "OFFSET_0xE+1" = some [.ident "OFFSET_0xE", .plus, .num 1] := by decide
+example : unwritable "0xE+1".toList = true ∧ unwritable "(0xE+1)".toList = true := by decide
 -- the theorem applied
 example : ∃ cts, cppLex 10 "(1)<<(31)".toList = some cts ∧
     cts.mapM ofCTok = some [.lpar, .num 1, .rpar, .shl, .lpar, .num 31, .rpar] :=
@@ -141,6 +177,8 @@ end Prophy.C14
 #print axioms Prophy.C14.C14_unwritable_hex_clause
 #print axioms Prophy.C14.C14_parse_alternates
 #print axioms Prophy.C14.C14_cpp_lexes_like_calc
+#print axioms Prophy.C14.C14_unwritable_is_exact
+#print axioms Prophy.C14.C14_unwritable_exact_iff
 #print axioms Prophy.C14.C14_cpp_reads_text
 #print axioms Prophy.C14.C14_cpp_reads_host_tree
 #print axioms Prophy.C14.C14_cpp_reads_same_tree_iff
